@@ -222,6 +222,7 @@ let rec parse_op (s : string) : pop =
   | ["W"; p; _h; sc; v] -> PS (true, Some (parse_sched sc), p, parse_proto p, dm_of_string v)
   | ["C"; p; _h; v] -> PS (false, None, p, parse_proto p, dm_of_string v)
   | ["G"; f; l] -> PG (f, bytes_of_hex l)
+  | ["G"; f; l; _holder] -> PG (f, bytes_of_hex l)
   | _ -> failwith ("bad op " ^ s)
 
 let proto_codec_hex (p : string) = match split '.' p with [_; c; _; _] -> c | _ -> ""
@@ -233,6 +234,32 @@ let proto_in_space (p : string) : bool =
     if v = "0" then c = "70" && m = "12" && (l = 32 || l = -1)
     else v = "1" && (m = "0" || (l >= -1 && l <= full))
   | _ -> false
+
+(* A load into a schema-typed prototype (harness/lib/link_holders.go) presents the decoded value at
+   the type level: a struct iterates its fields in declaration order, whatever order the block had
+   them in.  [typed_view h v] is that presentation of the decoded value v. *)
+let typed_fields = function
+  | "tpoint" -> ["x"; "y"]
+  | "tjoin" -> ["a"; "b"]
+  | "trename" -> ["foo"; "bar"]
+  | "gmsg3" -> ["whee"; "woot"; "waga"]
+  | _ -> []
+
+let bytes_of_ascii (s : string) : bytes = List.init (String.length s) (fun i -> n_of_int (Char.code s.[i]))
+
+let typed_view (h : string) (v : dm) : dm =
+  match v, typed_fields h with
+  | DMap es, (_ :: _ as fs) ->
+    let picked = List.filter_map (fun f -> let k = bytes_of_ascii f in
+                                   match List.assoc_opt k es with Some x -> Some (k, x) | None -> None) fs in
+    if List.length picked = List.length es then DMap picked else v
+  | _ -> v
+
+(* holder of a load op (4th field of G), "" for Prototype.Any *)
+let load_holder (t : string) : string =
+  let t = (if String.length t > 2 && String.sub t 0 2 = "N:" then
+             (match split ':' t with _ :: _ :: rest -> String.concat ":" rest | _ -> t) else t) in
+  match split ':' t with ["G"; _; _; h] -> h | _ -> ""
 
 let do_hist id kind trusted reg_text ops_text obs =
   let (encs, decs) = parse_reg reg_text in
@@ -271,7 +298,10 @@ let do_hist id kind trusted reg_text ops_text obs =
     if List.mem i notrun then "notrun" :: splice (i + 1) outs
     else (match outs with
         | OutS s :: r -> sout_text s :: splice (i + 1) r
-        | OutL o :: r -> lout_text o :: splice (i + 1) r
+        | OutL o :: r ->
+          let h = load_holder (List.nth op_texts i) in
+          let o = (if h = "" then o else { o with lo_node = (match o.lo_node with Some v -> Some (typed_view h v) | None -> None) }) in
+          lout_text o :: splice (i + 1) r
         | [] -> []) in
   let out_texts = Array.of_list (splice 0 outs) in
   let model_obs = String.concat ";" (Array.to_list out_texts @ [storage_text st]) in
@@ -371,8 +401,10 @@ let do_hist id kind trusted reg_text ops_text obs =
                    else if st <> "ok" then add_fail fails "store_load"
                    else begin
                      if want_node then begin
+                       let h = load_holder (List.nth op_texts i) in
+                       let expect = if h = "" then cv else string_of_dm (typed_view h (dm_of_string cv)) in
                        if node = "-" then add_fail fails "store_load_no_node"
-                       else if node <> cv then add_fail fails "store_load_value"
+                       else if node <> expect then add_fail fails "store_load_value"
                      end;
                      if want_raw then begin
                        if raw = "-" then add_fail fails "store_load_no_raw"
